@@ -9,6 +9,7 @@ semantic model (models.py) or become opaque effects.  Loops are widened.
 import re
 from facts import loc, strip_lifetimes
 
+CMP_TRUE = {"Eq": frozenset("="), "Ne": frozenset("<>"), "Lt": frozenset("<"), "Le": frozenset("<="), "Gt": frozenset(">"), "Ge": frozenset(">=")}
 TRUE = ("int", 1, "bool")
 FALSE = ("int", 0, "bool")
 UNIT = ("unit",)
@@ -147,6 +148,33 @@ class State:
             self.cons[t] = ("in", nv)
             return True
         self.cons[t] = ("out", d[1] | vals)
+        return True
+
+    # ---- orderings of pairs: key ('rel', a, b) with a<b in repr order, value subset of '<=>'
+    @staticmethod
+    def rel_key(a, b):
+        if repr(a) <= repr(b):
+            return ("rel", a, b), False
+        return ("rel", b, a), True
+
+    def rel_get(self, a, b):
+        k, sw = self.rel_key(a, b)
+        d = self.cons.get(k)
+        r = d[1] if d is not None else frozenset("<=>")
+        if sw:
+            r = frozenset({"<": ">", ">": "<", "=": "="}[c] for c in r)
+        return r
+
+    def rel_meet(self, a, b, allowed):
+        k, sw = self.rel_key(a, b)
+        if sw:
+            allowed = frozenset({"<": ">", ">": "<", "=": "="}[c] for c in allowed)
+        d = self.cons.get(k)
+        cur = d[1] if d is not None else frozenset("<=>")
+        nv = cur & frozenset(allowed)
+        if not nv:
+            return False
+        self.cons[k] = ("in", nv)
         return True
 
     def known(self, t):
@@ -738,6 +766,8 @@ class Evaluator:
         if k == "assert":
             c = self.operand(st, act, t["cond"])
             kn = self.decide(st, c)
+            if kn is not None and bool(kn) == t["expected"]:
+                st.emit(("assert_decided", t["msg"], c, w))
             if kn is not None and bool(kn) != t["expected"]:
                 st.emit(("panic", "assert:" + t["msg"], (), w))
                 return [Path("panic", None, st, "assert:" + t["msg"])]
@@ -777,9 +807,12 @@ class Evaluator:
             return ("sym", "loop@bb%d:%s:%s" % (h, kind, key), "?")
 
         if snap is None:
-            act.visits[h] = (dict(fr), dict(st.heap), 1)
+            act.visits[h] = (dict(fr), dict(st.heap), 1, len(act.visits))
             return None
-        old_fr, old_heap, n = snap
+        old_fr, old_heap, n, order = snap
+        # loops nested inside this one start afresh in the next iteration
+        for h2 in [k for k, v in act.visits.items() if v[3] > order]:
+            del act.visits[h2]
         changed = False
         widened = []
         for l, v in list(fr.items()):
@@ -821,7 +854,7 @@ class Evaluator:
                 if mentions(t, wsyms):
                     del st.cons[t]
         st.emit(("widen", "bb%d" % h, tuple(widened), act.fn["path"]))
-        act.visits[h] = (dict(fr), dict(st.heap), n + 1)
+        act.visits[h] = (dict(fr), dict(st.heap), n + 1, order)
         return None
 
     # ---- branching ----------------------------------------------------------------
@@ -856,10 +889,26 @@ class Evaluator:
         if k == "app" and t[1] == "Not":
             v = self.decide(st, t[2][0])
             return None if v is None else 1 - v
-        if k == "app" and t[1] in ("Eq", "Ne", "Lt", "Le", "Gt", "Ge") and len(t[2]) == 2:
+        if k == "app" and t[1] in CMP_TRUE and len(t[2]) == 2:
             x, y = st.known(t[2][0]), st.known(t[2][1])
             if x is not None and y is not None:
                 return int({"Eq": x == y, "Ne": x != y, "Lt": x < y, "Le": x <= y, "Gt": x > y, "Ge": x >= y}[t[1]])
+            # finite domain on one side, constant on the other
+            a, b = t[2]
+            for (u, c, flip) in ((a, y, False), (b, x, True)):
+                d = st.cons.get(u)
+                if c is not None and d is not None and d[0] == "in" and all(isinstance(v, int) for v in d[1]):
+                    res = set()
+                    for v in d[1]:
+                        l, r = (c, v) if flip else (v, c)
+                        res.add({"Eq": l == r, "Ne": l != r, "Lt": l < r, "Le": l <= r, "Gt": l > r, "Ge": l >= r}[t[1]])
+                    if len(res) == 1:
+                        return int(res.pop())
+            rel = st.rel_get(a, b)
+            if rel <= CMP_TRUE[t[1]]:
+                return 1
+            if not (rel & CMP_TRUE[t[1]]):
+                return 0
         if k == "app" and t[1] in ("Eq", "Ne") and len(t[2]) == 2:
             a, b = t[2]
             if b[0] != "int" and a[0] == "int":
@@ -904,6 +953,10 @@ class Evaluator:
             return st.constrain_out(t[1], [t[2]])
         if k == "app" and t[1] == "Not":
             return self.assume(st, t[2][0], 1 - val)
+        if k == "app" and t[1] in CMP_TRUE and len(t[2]) == 2:
+            allowed = CMP_TRUE[t[1]] if val == 1 else frozenset("<=>") - CMP_TRUE[t[1]]
+            if not st.rel_meet(t[2][0], t[2][1], allowed):
+                return False
         if k == "app" and t[1] in ("Eq", "Ne") and len(t[2]) == 2:
             a, b = t[2]
             if b[0] != "int" and a[0] == "int":
@@ -963,8 +1016,15 @@ class Evaluator:
             ok = True
             if not s2.constrain_out(d, vals):
                 ok = False
+            dec = ("not", tuple(vals))
+            if ok and dv is not None:
+                rest = set(dv) - set(vals)
+                if not s2.constrain_in(d, rest):
+                    ok = False
+                elif len(rest) == 1:
+                    dec = next(iter(rest))
             if ok:
-                s2.decisions = s2.decisions + ((d, ("not", tuple(vals)), w),)
+                s2.decisions = s2.decisions + ((d, dec, w),)
                 s2.stack[-1].block = t["otherwise"]
                 out.append(s2)
         return out
@@ -1129,6 +1189,8 @@ def term_type(t):
         return t[1]
     if t[0] == "int":
         return t[2]
+    if t[0] == "item" and t[1][0] == "adt" and t[1][1].endswith("ops::range::Range") and len(t[1][4]) == 2:
+        return term_type(t[1][4][1]) or term_type(t[1][4][0])
     if t[0] == "unwrap":
         return None
     return None
@@ -1205,7 +1267,7 @@ def fmt_term(t, depth=0):
         if e[0] == "field":
             return "%s.%d" % (f(t[1]), e[1])
         if e[0] == "downcast":
-            return "(%s as %s)" % (f(t[1]), e[2])
+            return "(%s as %s)" % (f(t[1]), e[2] if len(e) > 2 else "#%d" % e[1])
         if e[0] == "deref":
             return "*%s" % f(t[1])
         if e[0] == "index":
@@ -1227,6 +1289,8 @@ def fmt_term(t, depth=0):
         return "unwrap(%s)" % f(t[1])
     if k == "seq":
         return "seq[" + ", ".join(("%s" % f(i[1])) if i[0] == "elem" else ("*%s" % f(i[1])) if i[0] == "splice" else "fill_to(%s,%s)" % (f(i[1]), f(i[2])) for i in t[1]) + "]"
+    if k == "item":
+        return "item(%s)" % f(t[1])
     if k == "fn":
         return "fn:" + t[1][0]
     if k == "closure":
